@@ -33,6 +33,7 @@ Select(p, x) == [t |-> "select", p |-> p, x |-> x]
 Sub(lo, cnt, x) == [t |-> "sub", lo |-> lo, cnt |-> cnt, x |-> x]
 Unify(x, y) == [t |-> "unify", x |-> x, y |-> y]
 Debug(x) == [t |-> "debug", x |-> x]
+Fail(at, x) == [t |-> "fail", at |-> at, x |-> x]
 
 Mems(n) == {Mem(S) : S \in SUBSET (1..n)}
 MemsA(n) == Mems(n) \cup {Absent}
@@ -84,7 +85,19 @@ Refs ==
     Fam("refs", N3, Ks(N3), {Unify(Http(1, h, m), m2) : h \in HopsSmall, m \in MemsA(N3), m2 \in MemsA(N3)}),
     Fam("refs", N3, Ks(N3), {Debug(Select({}, Sub(0, 1, m))) : m \in MemsA(N3)})>>
 
-Families == Repos \o Subs \o Tags \o Refs
+\* errors AFTER items, seen through the wrappers: a source that fails part-way (directly,
+\* behind a paging hop - a later page request fails -, as one member of a unifier), and a
+\* unifier one of whose members refuses the page size
+Fails(n) == {Fail(at, m) : at \in 1..n, m \in {Mem(1..n), Mem({x \in 1..n : x % 2 = 1}), Mem({x \in 1..n : x > 1})}}
+Late(kind) ==
+  <<Fam(kind, N3, Ks(N3), {Debug(f) : f \in Fails(N3)} \cup {Select(1..N3, Debug(f)) : f \in Fails(N3)}),
+    Fam(kind, N3, Ks(N3), {Debug(Http(1, h, f)) : h \in HopsSmall, f \in Fails(N3)}),
+    Fam(kind, N3, Ks(N3), {Http(1, h, Debug(f)) : h \in HopsTiny, f \in Fails(N3)}),
+    Fam(kind, N3, Ks(N3), {Debug(Unify(f, m2)) : f \in Fails(N3), m2 \in Seconds(N3)}
+                          \cup {Debug(Unify(m2, Debug(f))) : f \in Fails(N3), m2 \in Seconds(N3)}),
+    Fam(kind, N3, Ks(N3), {Debug(Unify(Http(1, Hop(3, 2, TRUE), m), m2)) : m \in Mems(N3), m2 \in Seconds(N3)})>>
+
+Families == Repos \o Subs \o Tags \o Refs \o Late("repos") \o Late("tags") \o Late("refs")
 
 MCInit ==
   /\ \E j \in 1..Len(Families) : LET f == Families[j] IN
@@ -103,6 +116,7 @@ NodeId(nd) ==
     [] nd.t = "sub" -> 7 * NodeId(nd.x) + nd.lo + 3 * nd.cnt
     [] nd.t = "unify" -> 11 * NodeId(nd.x) + 13 * NodeId(nd.y)
     [] nd.t = "debug" -> 1 + NodeId(nd.x)
+    [] nd.t = "fail" -> 2 * NodeId(nd.x) + 19 * nd.at
 CfgId(c) == NodeId(c.node) + 17 * c.a + 29 * c.k
 SampleRem == atoi(IOEnv.C05_SEED) % SampleMod
 Emit == (st = "start" /\ CfgId(cfg) % SampleMod = SampleRem) => PrintT(<<"MBT", ToJson(cfg)>>)
